@@ -404,8 +404,8 @@ func checkEncoded(tt *tagTables, m *nameModel, data []byte, winEnc uint16) (tab 
 			return nil, false, fmt.Errorf("record %d: platform %d has encoding id %d, want %d", i, r.Platform, r.Encoding, wantEnc)
 		}
 		if !bytes.Equal(r.Data, w) {
-			return nil, false, fmt.Errorf("record %d (platform %d language %#x [%s] name id %d): stored bytes %s, reference encoding gives %s",
-				i, r.Platform, r.Language, langTag[[2]uint16{r.Platform, r.Language}], r.NameID, shortBytes(r.Data), shortBytes(w))
+			return nil, false, fmt.Errorf("record %d (platform %d language %#x [%s] name id %d): stored bytes %s, reference encoding gives %s (%s)",
+				i, r.Platform, r.Language, langTag[[2]uint16{r.Platform, r.Language}], r.NameID, shortBytes(r.Data), shortBytes(w), diffBytes(r.Data, w))
 		}
 		have[k] = true
 		usedLang[[2]uint16{r.Platform, r.Language}] = true
@@ -440,6 +440,29 @@ func checkEncoded(tt *tagTables, m *nameModel, data []byte, winEnc uint16) (tab 
 		sum += len(d)
 	}
 	return tab, len(tab.Storage) < total && len(tab.Storage) <= sum, nil
+}
+
+// diffBytes describes where two byte strings start to differ.
+func diffBytes(got, want []byte) string {
+	i := 0
+	for i < len(got) && i < len(want) && got[i] == want[i] {
+		i++
+	}
+	lo := i - 4
+	if lo < 0 {
+		lo = 0
+	}
+	cut := func(b []byte) []byte {
+		hi := i + 12
+		if hi > len(b) {
+			hi = len(b)
+		}
+		if lo > hi {
+			return nil
+		}
+		return b[lo:hi]
+	}
+	return fmt.Sprintf("lengths %d and %d, first difference at byte %d: [%d:] % x vs % x", len(got), len(want), i, lo, cut(got), cut(want))
 }
 
 func shortBytes(b []byte) string {
